@@ -537,9 +537,10 @@ fn mem_stream(r: &mut Rng, nhist: usize, st: &mut Stats) {
 // ------------------------------------------------------------------------------------------
 // wallet stream
 // ------------------------------------------------------------------------------------------
-fn network() -> LocalNetwork {
+/// Sapling .. NU6.2 activate at BASE (the wallet birthday), NU6.3 (Ironwood, anchor retention) at `act`.
+fn network(act: u32) -> LocalNetwork {
     let a = Some(BlockHeight::from_u32(BASE));
-    LocalNetwork { overwinter: Some(BlockHeight::from_u32(1)), sapling: a, blossom: a, heartwood: a, canopy: a, nu5: a, nu6: a, nu6_1: a, nu6_2: a, nu6_3: a }
+    LocalNetwork { overwinter: Some(BlockHeight::from_u32(1)), sapling: a, blossom: a, heartwood: a, canopy: a, nu5: a, nu6: a, nu6_1: a, nu6_2: a, nu6_3: Some(BlockHeight::from_u32(act)) }
 }
 
 #[derive(Clone)]
@@ -583,13 +584,19 @@ struct World {
     chain: Vec<Blk>,
     genesis: ChainState,
     rng: ChaChaRng,
-    /// positions of the from_state frontiers inserted by successful scans, per pool
-    frontiers: [Vec<u64>; 3],
+    /// per pool: the position ranges (start, end) of the ommers (level >= 1) of every frontier the
+    /// wallet inserted; a detailed node covering such a range carries a cached hash afterwards
+    annot: [Vec<(u64, u64)>; 3],
     /// a rewind went to a position strictly inside a completed subtree that an earlier frontier
     /// insertion had covered with one of its ommers (level >= 1)
     hazard: [bool; 3],
     /// tree sizes of the birthday frontier (leaves the wallet never sees)
     gsize: [u64; 3],
+    /// NU6.3 activation height (ground truth of the retention policy's floor)
+    act: u32,
+    /// txids of transactions with an output to the wallet, and such transactions dropped by a fork
+    own_txids: BTreeSet<Vec<u8>>,
+    orphan_txs: Vec<CompactTx>,
 }
 /// `p` lies inside, and is not the last position of, the ommer of the frontier at `q` that covers it
 fn inside_ommer(p: u64, q: u64) -> bool {
@@ -624,8 +631,12 @@ impl World {
         World::with_birthday(rng, iv, [0; 3])
     }
     /// A wallet whose birthday frontier already holds `gsize[p]` (unknown, random) leaves in pool p.
-    fn with_birthday(mut rng: ChaChaRng, iv: u32, gsize: [u64; 3]) -> World {
-        let net = network();
+    fn with_birthday(rng: ChaChaRng, iv: u32, gsize: [u64; 3]) -> World {
+        World::with_params(rng, iv, gsize, BASE)
+    }
+    /// ... and NU6.3 activating at height `act` >= BASE.
+    fn with_params(mut rng: ChaChaRng, iv: u32, gsize: [u64; 3], act: u32) -> World {
+        let net = network(act);
         let mut db = TestDbFactory::default()
             .new_data_store(net, Some(AnchorRetentionInterval::custom(NonZeroU32::new(iv).unwrap())), None)
             .expect("data store");
@@ -653,13 +664,38 @@ impl World {
             chain: vec![],
             genesis,
             rng,
-            frontiers: [vec![], vec![], vec![]],
+            annot: [vec![], vec![], vec![]],
             hazard: [false; 3],
             gsize,
+            act,
+            own_txids: BTreeSet::new(),
+            orphan_txs: vec![],
         }
     }
     fn tip(&self) -> u32 {
         BASE + self.chain.len() as u32 - 1
+    }
+    /// a frontier at position `q` was inserted into pool `p`
+    fn note_frontier(&mut self, p: usize, q: u64) {
+        for l in 1..63u64 {
+            if (q >> l) & 1 == 1 {
+                let start = (q >> (l + 1)) << (l + 1);
+                let r = (start, start + (1u64 << l) - 1);
+                if !self.annot[p].contains(&r) {
+                    self.annot[p].push(r);
+                }
+            }
+        }
+    }
+    /// pool `p` was physically truncated to position `pos`; true = the cut went strictly inside an
+    /// annotated range (C06-F2 hazard)
+    fn note_truncation(&mut self, p: usize, pos: u64) -> bool {
+        let hz = self.annot[p].iter().any(|(s, e)| *s <= pos && pos < *e);
+        self.annot[p].retain(|(s, _)| *s <= pos);
+        if hz {
+            self.hazard[p] = true;
+        }
+        hz
     }
     fn state_after(&self, h: u32) -> Option<&ChainState> {
         if h + 1 == BASE {
@@ -675,7 +711,14 @@ impl World {
     }
     /// outs: (pool, owned by the wallet)
     fn push_block(&mut self, outs: &[(usize, bool)]) {
+        self.push_block_ex(outs, vec![])
+    }
+    /// ... followed by re-mined transactions (same txid, same outputs) from an abandoned fork
+    fn push_block_ex(&mut self, outs: &[(usize, bool)], remined: Vec<CompactTx>) {
         let h = BASE + self.chain.len() as u32;
+        // no Ironwood output before NU6.3
+        let outs: Vec<(usize, bool)> = outs.iter().map(|(p, o)| (if *p == 2 && h < self.act { 1 } else { *p }, *o)).collect();
+        let outs = &outs[..];
         let height = BlockHeight::from_u32(h);
         let prev = self.state_after(h - 1).unwrap().clone();
         let sap_size = prev.final_sapling_tree().tree_size() as u32;
@@ -684,6 +727,9 @@ impl World {
             let mut ctx = CompactTx::default();
             ctx.txid = seed32(&mut self.rng).to_vec();
             ctx.index = 1;
+            if outs.iter().any(|(_, own)| *own) {
+                self.own_txids.insert(ctx.txid.clone());
+            }
             for (pool, own) in outs {
                 let v = Zatoshis::from_u64(10_000 + self.rng.next_u32() as u64 % 50_000).unwrap();
                 let at = AddressType::DefaultExternal;
@@ -703,6 +749,10 @@ impl World {
                 }
             }
             ctxs.push(ctx);
+        }
+        for (k, mut t) in remined.into_iter().enumerate() {
+            t.index = 2 + k as u64;
+            ctxs.push(t);
         }
         let hash = seed32(&mut self.rng);
         let mut sap = prev.final_sapling_tree().clone();
@@ -732,7 +782,15 @@ impl World {
     }
     fn fork_at(&mut self, h: u32) {
         let keep = (h + 1 - BASE) as usize;
-        self.chain.truncate(keep);
+        if keep < self.chain.len() {
+            for b in self.chain.drain(keep..) {
+                for t in b.cb.vtx {
+                    if self.own_txids.contains(&t.txid) {
+                        self.orphan_txs.push(t);
+                    }
+                }
+            }
+        }
     }
     fn scan(&mut self, from: u32, limit: usize) -> Result<(), String> {
         let from_state = self.state_after(from - 1).unwrap().clone();
@@ -912,10 +970,57 @@ fn check_merkle(w: &mut World, led: &[Ledger; 3], which: &[Vec<u32>; 3], r: &mut
         }
     };
     let (ls, lo, li) = w.leaves();
-    // sapling
-    let sap: Vec<(u64, Option<u32>)> = notes.sapling().iter().map(|n| (u64::from(n.note_commitment_tree_position()), n.mined_height().map(u32::from))).collect();
-    let orc: Vec<(u64, Option<u32>)> = notes.orchard().iter().map(|n| (u64::from(n.note_commitment_tree_position()), n.mined_height().map(u32::from))).collect();
-    let iro: Vec<(u64, Option<u32>)> = notes.ironwood().iter().map(|n| (u64::from(n.note_commitment_tree_position()), n.mined_height().map(u32::from))).collect();
+    // Ground truth: every note is identified by ITS OWN commitment; its true position is where that
+    // commitment sits in the current best chain, and a path is applied to that commitment.
+    // (a note whose transaction is not mined -- e.g. un-mined by a rewind -- is not spendable)
+    let sap_own: BTreeMap<u64, sapling::Node> = notes
+        .sapling()
+        .iter()
+        .filter(|n| n.mined_height().is_some())
+        .map(|n| (u64::from(n.note_commitment_tree_position()), sapling::Node::from_cmu(&n.note().cmu())))
+        .collect();
+    let mk_orch = |n: &orchard::Note| {
+        let cmx: orchard::note::ExtractedNoteCommitment = n.commitment().into();
+        orchard::tree::MerkleHashOrchard::from_cmx(&cmx)
+    };
+    let orc_own: BTreeMap<u64, orchard::tree::MerkleHashOrchard> =
+        notes.orchard().iter().filter(|n| n.mined_height().is_some()).map(|n| (u64::from(n.note_commitment_tree_position()), mk_orch(n.note()))).collect();
+    let iro_own: BTreeMap<u64, orchard::tree::MerkleHashOrchard> =
+        notes.ironwood().iter().filter(|n| n.mined_height().is_some()).map(|n| (u64::from(n.note_commitment_tree_position()), mk_orch(n.note()))).collect();
+    for (p, own) in &sap_own {
+        match ls.iter().position(|l| l == own) {
+            Some(i) if i as u64 + w.gsize[0] == *p => st.bump("positions_checked"),
+            Some(_) => {
+                m.wits[0] = false;
+                st.bump("POSITION_MISMATCH");
+            }
+            None => {
+                m.wits[0] = false;
+                if trace() {
+                    eprintln!("  SPENDABLE_NOTE_NOT_IN_CHAIN sapling pos {p} mined {:?}", notes.sapling().iter().find(|n| u64::from(n.note_commitment_tree_position()) == *p).map(|n| n.mined_height()));
+                }
+                st.bump("SPENDABLE_NOTE_NOT_IN_CHAIN");
+            }
+        }
+    }
+    for (pool, owns, leaves) in [(1usize, &orc_own, &lo), (2usize, &iro_own, &li)] {
+        for (p, own) in owns.iter() {
+            match leaves.iter().position(|l| l == own) {
+                Some(i) if i as u64 + w.gsize[pool] == *p => st.bump("positions_checked"),
+                Some(_) => {
+                    m.wits[pool] = false;
+                    st.bump("POSITION_MISMATCH");
+                }
+                None => {
+                    m.wits[pool] = false;
+                    st.bump("SPENDABLE_NOTE_NOT_IN_CHAIN");
+                }
+            }
+        }
+    }
+    let sap: Vec<(u64, Option<u32>)> = notes.sapling().iter().filter(|n| n.mined_height().is_some()).map(|n| (u64::from(n.note_commitment_tree_position()), n.mined_height().map(u32::from))).collect();
+    let orc: Vec<(u64, Option<u32>)> = notes.orchard().iter().filter(|n| n.mined_height().is_some()).map(|n| (u64::from(n.note_commitment_tree_position()), n.mined_height().map(u32::from))).collect();
+    let iro: Vec<(u64, Option<u32>)> = notes.ironwood().iter().filter(|n| n.mined_height().is_some()).map(|n| (u64::from(n.note_commitment_tree_position()), n.mined_height().map(u32::from))).collect();
     st.add("unspent_notes", (sap.len() + orc.len() + iro.len()) as u64);
     // pick (note, checkpoint at or above its height) pairs: the newest checkpoint plus random ones
     let mut pick = |notes: &Vec<(u64, Option<u32>)>, cks: &Vec<(u32, Option<u64>)>, r: &mut Rng| -> Vec<(u64, u32)> {
@@ -957,7 +1062,7 @@ fn check_merkle(w: &mut World, led: &[Ledger; 3], which: &[Vec<u32>; 3], r: &mut
             Ok(Some(path)) => {
                 st.bump("witnesses_checked");
                 let want = w.state_after(*h).map(|s| s.final_sapling_tree().root());
-                if *p < w.gsize[0] || ((*p - w.gsize[0]) as usize) >= ls.len() || Some(path.root(ls[(*p - w.gsize[0]) as usize].clone())) != want {
+                if Some(path.root(sap_own[p].clone())) != want {
                     m.wits[0] = false;
                     if std::env::var("C06_TRACE").is_ok() { eprintln!("  WITNESS_MISMATCH pos {p} at {h}"); }
                     st.bump("WITNESS_MISMATCH");
@@ -977,7 +1082,7 @@ fn check_merkle(w: &mut World, led: &[Ledger; 3], which: &[Vec<u32>; 3], r: &mut
             Ok(Some(path)) => {
                 st.bump("witnesses_checked");
                 let want = w.state_after(*h).map(|s| s.final_orchard_tree().root());
-                if *p < w.gsize[1] || ((*p - w.gsize[1]) as usize) >= lo.len() || Some(path.root(lo[(*p - w.gsize[1]) as usize])) != want {
+                if Some(path.root(orc_own[p])) != want {
                     m.wits[1] = false;
                     if std::env::var("C06_TRACE").is_ok() { eprintln!("  WITNESS_MISMATCH pos {p} at {h}"); }
                     st.bump("WITNESS_MISMATCH");
@@ -998,7 +1103,7 @@ fn check_merkle(w: &mut World, led: &[Ledger; 3], which: &[Vec<u32>; 3], r: &mut
             Ok(Some(path)) => {
                 st.bump("witnesses_checked");
                 let want = w.state_after(*h).map(|s| s.final_ironwood_tree().root());
-                if *p < w.gsize[2] || ((*p - w.gsize[2]) as usize) >= li.len() || Some(path.root(li[(*p - w.gsize[2]) as usize])) != want {
+                if Some(path.root(iro_own[p])) != want {
                     m.wits[2] = false;
                     if std::env::var("C06_TRACE").is_ok() { eprintln!("  WITNESS_MISMATCH pos {p} at {h}"); }
                     st.bump("WITNESS_MISMATCH");
@@ -1091,12 +1196,10 @@ fn emit_trunc(w: &mut World, req: u32, r: &mut Rng, st: &mut Stats) -> Option<u3
         if blocks.last().map_or(false, |l| got < l) {
             for p in 0..3 {
                 if let Some((_, Some(pos))) = pre[p].0.iter().find(|e| e.0 == *got) {
-                    if w.frontiers[p].iter().any(|q| inside_ommer(*pos, *q)) {
-                        w.hazard[p] = true;
+                    let pos = *pos;
+                    if w.note_truncation(p, pos) {
                         st.bump("hazard_rewinds");
                     }
-                    let pos = *pos;
-                    w.frontiers[p].retain(|q| *q <= pos);
                 }
             }
         }
@@ -1157,12 +1260,10 @@ fn emit_tcs(w: &mut World, target: u32, r: &mut Rng, st: &mut Stats) -> bool {
         for p in 0..3 {
             if sizes[p] > 0 {
                 let pos = sizes[p] - 1;
-                if w.frontiers[p].iter().any(|q| inside_ommer(pos, *q)) {
-                    w.hazard[p] = true;
+                w.note_frontier(p, pos);
+                if w.note_truncation(p, pos) {
                     st.bump("hazard_rewinds");
                 }
-                w.frontiers[p].retain(|q| *q <= pos);
-                w.frontiers[p].push(pos);
             }
         }
     }
@@ -1231,12 +1332,10 @@ fn emit_rewind(w: &mut World, target: u32, r: &mut Rng, st: &mut Stats) -> Optio
             // a pool truncated to its checkpoint at `cut`
             if let Some((h, Some(pos))) = post[p].0.last() {
                 if pre[p].0.iter().any(|e| e.0 > *h) {
-                    if w.frontiers[p].iter().any(|q| inside_ommer(*pos, *q)) {
-                        w.hazard[p] = true;
+                    let pos = *pos;
+                    if w.note_truncation(p, pos) {
                         st.bump("hazard_rewinds");
                     }
-                    let pos = *pos;
-                    w.frontiers[p].retain(|q| *q <= pos);
                 }
             }
         }
@@ -1305,7 +1404,7 @@ fn emit_scan(w: &mut World, iv: u32, from: u32, limit: usize, full: bool, r: &mu
     let which = which_roots(&pre, &post, full, r);
     let m = check_merkle(w, &post, &which, r, st);
     let heights: BTreeSet<u32> = post.iter().flat_map(|l| l.0.iter().map(|e| e.0)).collect();
-    let pol = Some((BASE, vec![iv]));
+    let pol = Some((w.act, vec![iv]));
     // a refusal by the Merkle layer names the pool: it is excused only when THAT pool is hazardous
     let hz = match &res {
         Err(e) if e.contains("pool: Sapling") => w.hazard[0],
@@ -1342,7 +1441,7 @@ fn emit_scan(w: &mut World, iv: u32, from: u32, limit: usize, full: bool, r: &mu
     if res.is_ok() && to >= from {
         for p in 0..3 {
             if fs[p] > 0 {
-                w.frontiers[p].push(fs[p] - 1);
+                w.note_frontier(p, fs[p] - 1);
             }
         }
     }
@@ -1460,6 +1559,12 @@ fn mk_world_b(seed: u64, idx: u64, iv: u32, gsize: [u64; 3]) -> World {
     let mut rng = ChaChaRng::seed_from_u64(seed ^ 0xc06c_06c0_6000_0000 ^ idx);
     rng.set_stream(77);
     World::with_birthday(rng, iv, gsize)
+}
+
+fn mk_world_p(seed: u64, idx: u64, iv: u32, gsize: [u64; 3], act: u32) -> World {
+    let mut rng = ChaChaRng::seed_from_u64(seed ^ 0xc06c_06c0_6000_0000 ^ idx);
+    rng.set_stream(77);
+    World::with_params(rng, iv, gsize, act)
 }
 
 fn mk_world(seed: u64, idx: u64, iv: u32) -> World {
@@ -1663,6 +1768,64 @@ fn scripted_histories(seed: u64, r: &mut Rng, st: &mut Stats) {
         }
         st.bump("wallet_histories");
     }
+    // NU6.3 activates strictly inside the first scan batch: the boundaries at or above activation in
+    // that batch (one of them on an empty block) must be checkpointed and retained in all three
+    // trees, and survive the >100 checkpoints of the next batch with computable roots.
+    {
+        if trace() {
+            eprintln!("scripted activation inside batch");
+        }
+        let iv = 12;
+        let mut w = mk_world_p(seed, 1_000_010, iv, [0; 3], BASE + 20);
+        for h in 0..=50u32 {
+            if h == 32 {
+                w.push_block(&[]);
+            } else {
+                w.push_block(&[(h as usize % 3, h % 9 == 2), ((h as usize + 1) % 3, false)]);
+            }
+        }
+        emit_scan(&mut w, iv, BASE, 51, false, r, st);
+        for _ in 0..130 {
+            w.push_block(&[(0, false), (1, false), (2, false)]);
+        }
+        emit_scan(&mut w, iv, BASE + 51, 1000, true, r, st);
+        // ... and strictly inside a LATER batch of another wallet
+        let mut w = mk_world_p(seed, 1_000_011, iv, [0; 3], BASE + 30);
+        for h in 0..=70u32 {
+            w.push_block(&if h % 12 == 0 { vec![] } else { vec![(h as usize % 3, false)] });
+        }
+        emit_scan(&mut w, iv, BASE, 10, false, r, st);
+        emit_scan(&mut w, iv, BASE + 10, 1000, true, r, st);
+        st.bump("wallet_histories");
+    }
+    // A wallet transaction is mined, abandoned by a reorg, and mined again on the new fork behind a
+    // different number of outputs: the wallet must witness its notes at their NEW positions.
+    {
+        if trace() {
+            eprintln!("scripted remine");
+        }
+        let iv = 144;
+        let mut w = mk_world(seed, 1_000_012, iv);
+        for _ in 0..5 {
+            w.push_block(&[(0, false), (1, false), (2, false)]);
+        }
+        w.push_block(&[(0, true), (1, true), (2, true)]);
+        for _ in 0..4 {
+            w.push_block(&[(0, false), (1, true)]);
+        }
+        emit_scan(&mut w, iv, BASE, 1000, true, r, st);
+        if let Some(got) = emit_trunc(&mut w, BASE + 4, r, st) {
+            w.fork_at(got);
+            w.push_block(&[(0, false), (0, false), (1, false), (2, false), (2, false)]);
+            let orphans: Vec<CompactTx> = w.orphan_txs.drain(..).collect();
+            w.push_block_ex(&[(0, false), (1, false), (1, false), (2, false)], orphans);
+            for _ in 0..3 {
+                w.push_block(&[(0, false), (1, false)]);
+            }
+            emit_scan(&mut w, iv, got + 1, 1000, true, r, st);
+        }
+        st.bump("wallet_histories");
+    }
     // C06-F2: rewind into a completed subtree whose hash an earlier frontier insertion cached.
     {
         if trace() {
@@ -1705,9 +1868,14 @@ fn wallet_history(seed: u64, idx: u64, r: &mut Rng, st: &mut Stats, long: bool) 
         }
         st.bump("histories_near_shard_end");
     }
-    let mut w = mk_world_b(seed, idx, iv, gsize);
+    let act = BASE + *r.pick(&[0u32, 0, 0, 7, 25, 60]);
+    if act > BASE {
+        // the Ironwood tree is empty until NU6.3 activates
+        gsize[2] = 0;
+    }
+    let mut w = mk_world_p(seed, idx, iv, gsize, act);
     if trace() {
-        eprintln!("hist {idx} iv {iv} profile {profile} long {long}");
+        eprintln!("hist {idx} iv {iv} profile {profile} long {long} act {act}");
     }
     st.bump("wallet_histories");
     let nops = if long { 9 + r.below(6) } else { 6 + r.below(6) };
@@ -1757,9 +1925,20 @@ fn wallet_history(seed: u64, idx: u64, r: &mut Rng, st: &mut Stats, long: bool) 
                         eprintln!("  fork at {got}");
                     }
                     st.bump("reorgs");
-                    for _ in 0..1 + r.below(10) {
+                    for k in 0..1 + r.below(10) {
                         let outs = gen_block(profile, r);
-                        w.push_block(&outs);
+                        // re-mine abandoned wallet transactions on the new fork (shifted positions)
+                        if k == 1 && !w.orphan_txs.is_empty() && r.chance(2, 3) {
+                            let h = w.tip() + 1;
+                            let act = w.act;
+                            let (now, later): (Vec<CompactTx>, Vec<CompactTx>) =
+                                w.orphan_txs.drain(..).partition(|t| t.ironwood_actions.is_empty() || h >= act);
+                            w.orphan_txs = later;
+                            st.add("remined_txs", now.len() as u64);
+                            w.push_block_ex(&outs, now);
+                        } else {
+                            w.push_block(&outs);
+                        }
                     }
                 }
                 if w.chain.is_empty() {
